@@ -141,12 +141,12 @@ def run(chk, prog):
             okz = is_t(t_, "tuple") and len(t_[1]) == 2 and all(is_t(x, "treemap") and x[2] == (P("tree"),) for x in t_[1])
             if okz:
                 sg_ = ("call", ("global", "genjax._src.core.typing.static_check_supports_grad"), (("leaf", P("tree")),), ())
-                okz = t_[1][0][1] == ("phi", sg_, ("leaf", P("tree")), ("const", None)) and t_[1][1][1] == ("phi", ("un", "not", sg_), ("leaf", P("tree")), ("const", None))
+                okz = t_[1][0][1] == ("phi", sg_, ("leaf", P("tree")), ("const", None)) and t_[1][1][1] == ("phi", sg_, ("const", None), ("leaf", P("tree")))
             chk.require(okz, "GRAD-PARTITION", "grad_tree_unzip", "differentiable leaves / the rest, complementary", derived=show(t_)[:260], expected="(v if supports_grad(v) else None, v if not supports_grad(v) else None)", where=f"{mm_.rel}:{gf_.lineno}")
         else:
             t_ = rg_.ret
             a_, b_ = ("leaf", P("grad_tree")), ("leaf", P("nongrad_tree"))
-            okz = is_t(t_, "treemap") and t_[2] == (P("grad_tree"), P("nongrad_tree")) and t_[1] == ("phi", ("un", "not", ("is", a_, ("const", None))), a_, b_)
+            okz = is_t(t_, "treemap") and t_[2] == (P("grad_tree"), P("nongrad_tree")) and t_[1] == ("phi", ("is", a_, ("const", None)), b_, a_)
             chk.require(okz, "GRAD-PARTITION", "grad_tree_zip", "takes the differentiable leaf when present", derived=show(t_)[:200], expected="v1 if v1 is not None else v2", where=f"{mm_.rel}:{gf_.lineno}")
     # ---- momenta: one independent key per selected leaf; scored as independent standard normals
     mm_, smf = prog.func("sample_momenta", MOD)
@@ -162,7 +162,7 @@ def run(chk, prog):
     eva = Evaluator(prog)
     eva.opaque_funcs.add("normal_score")
     ra_ = eva.eval_fn(amf, mm_)
-    oka_ = is_call(ra_.ret, "sum") and any(is_t(x, "treemap") and x[2] == (P("momenta"),) and is_call(x[1], "normal_score") and x[1][2] == (("bin", "*", P("mul"), ("leaf", P("momenta"))),) for x in subterms(ra_.ret))
+    oka_ = is_call(ra_.ret, "sum") and any(is_t(x, "treemap") and x[2] == (P("momenta"),) and is_call(x[1], "normal_score") and x[1][2] in ((("bin", "*", P("mul"), ("leaf", P("momenta"))),), (("bin", "*", ("leaf", P("momenta")), P("mul")),)) for x in subterms(ra_.ret))
     chk.require(oka_, "ALPHA", "assess_momenta", "sum over leaves of the standard-normal log density of mul * momentum", derived=show(ra_.ret)[:240], expected="sum(normal_score(mul * v) for every leaf)", where=f"{mm_.rel}:{amf.lineno}")
     # normal_score(v): the standard-normal log density of the WHOLE leaf v, summed over its elements: sum(Normal(0, 1).log_prob(v)), or its closed form
     # -0.5 * (sum(v ** 2) + n * log(2 pi)) - the square inside the sum
